@@ -8,6 +8,8 @@ open Golem.Props.C12
 #print axioms join_close_only_after
 #print axioms join_closed_inputs_closed
 #print axioms join_closes
+#print axioms join_no_invention
+#print axioms join_no_duplication
 #print axioms gen_join_pool
 #print axioms join_complete_gen
 #print axioms Golem.Props.Stage.PipeJoin.stage_gen
